@@ -73,12 +73,17 @@ def evaluate(sid, tier="quick", pids=None):
         os.makedirs(os.path.join(work, "harness-alt"), exist_ok=True)
         sh("cp -r %s %s" % (os.path.join(ROOT, "harness", "target"), os.path.join(work, "harness-alt", "target")))
     results = meta.get("detection", {})
+    # the checks run from a private copy of /verif's tracked tree, so that edits made to /verif meanwhile cannot reach a running evaluation
+    snap = "/tmp/evalsnap-" + sid
+    shutil.rmtree(snap, ignore_errors=True)
+    sh("rsync -a --exclude work --exclude target --exclude .git --exclude seeded --exclude evidence %s/ %s/" % (ROOT, snap))
+    os.makedirs(os.path.join(snap, "evidence"), exist_ok=True)
     try:
         rc, out = sh("git apply %s/patch.diff" % dst, cwd=wt)
         assert rc == 0, out
         for pid in pids:
             t0 = time.time()
-            rc, out = sh("VERIF_REPO_OVERRIDE=%s VERIF_WORK_OVERRIDE=%s bin/check %s %s" % (wt, work, pid, tier), cwd=ROOT, timeout=7200)
+            rc, out = sh("VERIF_REPO_OVERRIDE=%s VERIF_WORK_OVERRIDE=%s bin/check %s %s" % (wt, work, pid, tier), cwd=snap, timeout=7200)
             lines = [l for l in out.splitlines() if l.startswith("VIOLATION") or l.startswith("  key=") or l.startswith("TOOL-ERROR")]
             results["%s/%s" % (pid, tier)] = {"rc": rc, "detected": rc == 1, "wall_s": round(time.time() - t0, 1), "lines": [l[:300] for l in lines[:6]]}
             print(sid, pid, tier, "rc=", rc, [l[:200] for l in lines[:4]])
@@ -88,6 +93,7 @@ def evaluate(sid, tier="quick", pids=None):
         sh("git -C /repo worktree remove --force %s" % wt)
         shutil.rmtree(wt, ignore_errors=True)
         shutil.rmtree(work, ignore_errors=True)
+        shutil.rmtree(snap, ignore_errors=True)
     meta["detection"] = results
     meta["detection_head"] = sh("git -C %s rev-parse --short HEAD" % ROOT)[1].strip()
     json.dump(meta, open(os.path.join(dst, "meta.json"), "w"), indent=1)
